@@ -433,3 +433,49 @@ M("C02-break-on-primal-only", {"C02": "C02.R9"}, (_S, "            if converged:
 M("C02-budget-hardwired", {"C02": "C02.R9"}, (_S, "    for iteration in range(args.max_iterations):", "    for iteration in range(1000):"))
 M("C02-twin-u-reordered", {"C02": None}, (_S, "    return u + x - z", "    return x - z + u"))
 M("C02-twin-literal-eigen", {"C02": None, "C03": "C03.R2"}, (_S, "    eigenvalues = d + root\n    eigenvalues[negative] = (4*rho) / (root[negative] - d[negative])\n", "    eigenvalues = d + root\n"))
+
+# ---------------------------------------------------------------- C19
+M("C19-stack-centres-input", {"C19": "C19.R1"}, (_DP, "    num_data_points = data.shape[0]\n    num_full_windows", "    data -= data.mean(axis=0)\n    num_data_points = data.shape[0]\n    num_full_windows"))
+M("C19-joint-price-inplace", {"C19": "C19.R1"}, ("front_end.py", "    label_switching_cost = label_switching_cost * lsc_template\n", "    label_switching_cost *= lsc_template\n"))
+M("C19-kernel-row-view-accumulate", {"C19": "C19.R1"}, (_K, "        total_vals = future_cost_vals[i+1] + label_assignment_cost[i+1] + label_switching_cost[i]\n", "        total_vals = label_assignment_cost[i+1]\n        total_vals += future_cost_vals[i+1]\n        total_vals += label_switching_cost[i]\n"))
+M("C19-solver-symmetrise-input", {"C19": "C19.R1"}, (_S, "    z_old = None\n    for iteration", "    empirical_covariance += empirical_covariance.T\n    empirical_covariance *= 0.5\n    z_old = None\n    for iteration"))
+M("C19-lambda-matrix-fill-diagonal", {"C19": "C19.R1"}, (_S, "    if isinstance(lambda_parameter, np.ndarray):\n", "    if isinstance(lambda_parameter, np.ndarray):\n        np.fill_diagonal(lambda_parameter, 0)\n"))
+M("C19-series-list-sorted-inplace", {"C19": "C19.R1"}, ("front_end.py", "    data_series = list(data_series)\n", "    data_series.sort(key=len)\n"))
+M("C19-series-element-edit", {"C19": "C19.R1"}, ("front_end.py", "    data_series = list(data_series)\n", "    data_series = list(data_series)\n    data_series[0][0, :] = 0\n"))
+M("C19-filter-inplace-on-cost-table", {"C19": "C19.R1"}, (_K, "    label_assignment_cost = - log_likelihood\n", "    label_assignment_cost = - log_likelihood\n    test_data[np.isnan(test_data)] = 0\n"))
+M("C19-out-kw-into-input", {"C19": "C19.R1"}, (_S, "    z_minus_u_compressed = z - u\n", "    z_minus_u_compressed = z - u\n    np.multiply(empirical_covariance, 1.0, out=empirical_covariance)\n"))
+M("C19-memo-keeps-caller-matrix", {"C19": ["C19.R2", "C19.R1"], "C14": ["C14.R6", "C14.R5"]},
+  (_S, "LOGGER = logging.getLogger(__name__)\n", "LOGGER = logging.getLogger(__name__)\n_LAST = {}\n"),
+  (_S, "    if np.ndim(lambda_parameter) == 0:", "    _LAST['lambda'] = lambda_parameter\n    if np.ndim(lambda_parameter) == 0:"))
+M("C19-twin-fresh-negation-inplace", {"C19": None}, (_K, "    label_assignment_cost = - log_likelihood\n", "    label_assignment_cost = log_likelihood\n    label_assignment_cost *= -1\n"))
+M("C19-twin-copy-then-edit", {"C19": None}, (_DP, "    num_data_points = data.shape[0]\n    num_full_windows", "    data = np.copy(data)\n    data -= data.mean(axis=0)\n    num_data_points = data.shape[0]\n    num_full_windows"))
+
+# ---------------------------------------------------------------- C13
+_MS = "containers/model_state.py"
+M("C13-prefix-userargs-shallow-deepcopy", {"C13": "C13.R5"}, ("containers/arguments.py", "        return copy.deepcopy(self)\n", "        return self.shallow_copy()\n"))
+# __init__ stores sorted(member_points): passing the list itself is still a copy -> behaviour-preserving twin
+M("C13-twin-cluster-deepcopy-members-uncopied", {"C13": None}, (_MS, "            member_points=list(self.member_points),\n", "            member_points=self.member_points,\n"))
+M("C13-cluster-deepcopy-shares-train-inverse", {"C13": "C13.R5"}, (_MS, "            train_inverse=np.copy(self.train_inverse)\n        )", "            train_inverse=self.train_inverse\n        )"))
+M("C13-state-deepcopy-shares-labels", {"C13": "C13.R5"}, (_MS, "            point_labels=list(self._point_labels),", "            point_labels=self._point_labels,"))
+M("C13-state-deepcopy-via-setter", {"C13": "C13.R5"},
+  (_MS, "        new_clusters = [cluster.deep_copy() for cluster in self.clusters]\n        return ModelState(\n            arguments=self.arguments.deep_copy(),\n            clusters=new_clusters,\n            label_assignment_cost=self.label_assignment_cost,\n            point_labels=list(self._point_labels),\n            point_log_likelihood=np.copy(self.point_log_likelihood),\n            stacked_training_data=np.copy(self.stacked_training_data)\n        )",
+   "        new_model = self.shallow_copy()\n        new_model.arguments = self.arguments.deep_copy()\n        new_model.clusters = [cluster.deep_copy() for cluster in self.clusters]\n        new_model.point_labels = list(self._point_labels)\n        new_model.point_log_likelihood = np.copy(self.point_log_likelihood)\n        new_model.stacked_training_data = np.copy(self.stacked_training_data)\n        return new_model"))
+M("C13-member-setter-length-test", {"C13": "C13.R2"}, (_MS, "        elif new_members != self._member_points:", "        elif len(new_members) != len(self._member_points):"))
+M("C13-member-setter-ends-test", {"C13": "C13.R2"}, (_MS, "        elif new_members != self._member_points:", "        elif (len(new_members) != len(self._member_points) or new_members[0] != self._member_points[0]):"))
+M("C13-member-setter-unsorted", {"C13": "C13.R2"}, (_MS, "            self._member_points = sorted(new_members)\n\n    @property\n    def size", "            self._member_points = new_members\n\n    @property\n    def size"))
+M("C13-label-setter-no-refresh", {"C13": "C13.R2"}, (_MS, "            self._point_labels = new_labels\n            self._update_cluster_membership()", "            self._point_labels = new_labels"))
+M("C13-label-setter-refresh-first", {"C13": "C13.R2"}, (_MS, "            self._point_labels = new_labels\n            self._update_cluster_membership()", "            self._update_cluster_membership()\n            self._point_labels = new_labels"))
+M("C13-refresh-skips-last-cluster", {"C13": "C13.R2"}, (_MS, "            for cluster_id in range(self.arguments.num_clusters):\n                this_cluster_members", "            for cluster_id in range(self.arguments.num_clusters - 1):\n                this_cluster_members"))
+M("C13-refresh-bucket-shifted", {"C13": "C13.R2"}, (_MS, "                this_cluster_members = members[cluster_id]\n", "                this_cluster_members = members[cluster_id + 1]\n"))
+M("C13-direct-private-write", {"C13": "C13.R1"}, (_K, "    new_model.point_labels = new_labels\n", "    new_model._point_labels = new_labels\n"))
+M("C13-state-ctor-elsewhere", {"C13": "C13.R1"}, (_K, "    new_model = model.shallow_copy()\n    new_model.clusters = [cluster.deep_copy() for cluster in new_model.clusters]\n    new_model.point_labels = new_labels", "    new_model = model_state.ModelState(arguments=model.arguments, clusters=[cluster.deep_copy() for cluster in model.clusters],\n                                       point_labels=None, stacked_training_data=model.stacked_training_data)\n    new_model.point_labels = new_labels"))
+M("C13-edit-labels-in-place", {"C13": ["C13.R3", "C13.R6"], "C08": "C08.R5"}, (_CMf, "    new_point_labels = list(model.point_labels)", "    new_point_labels = model.point_labels"))
+M("C13-edit-after-publication", {"C13": "C13.R3"}, (_CMf, "        new_model.point_labels = updated_point_labels\n", "        new_model.point_labels = updated_point_labels\n        updated_point_labels[0] = updated_point_labels[0]\n"))
+M("C13-sort-members-in-place", {"C13": ["C13.R3", "C13.R6"]}, (_CMf, "    training_data_this_cluster = training_data[cluster.member_points, :]\n\n    updated_cluster.empirical_covariance", "    cluster.member_points.sort()\n    training_data_this_cluster = training_data[cluster.member_points, :]\n\n    updated_cluster.empirical_covariance"))
+M("C13-shallow-copy-shares-cluster-list", {"C13": "C13.R6"}, (_MS, "            clusters=list(self.clusters),", "            clusters=self.clusters,"))
+M("C13-relabel-no-cluster-copy", {"C13": "C13.R6"}, (_K, "    new_model.clusters = [cluster.deep_copy() for cluster in new_model.clusters]\n", ""))
+M("C13-stats-update-in-place", {"C13": "C13.R6"}, (_CMf, "    updated_cluster = cluster.shallow_copy()\n    training_data_this_cluster = training_data[cluster.member_points, :]\n\n    updated_cluster.empirical_covariance", "    updated_cluster = cluster\n    training_data_this_cluster = training_data[cluster.member_points, :]\n\n    updated_cluster.empirical_covariance"))
+M("C13-mrf-update-in-place", {"C13": "C13.R6"}, (_GL, "    updated_cluster = cluster.shallow_copy()\n    updated_cluster.computed_covariance", "    updated_cluster = cluster\n    updated_cluster.computed_covariance"))
+M("C13-clusters-appended", {"C13": "C13.R4"}, (_K, "    new_model.point_labels = new_labels\n", "    new_model.clusters.append(model_state.ClusterParameters.empty_cluster())\n    new_model.point_labels = new_labels\n"))
+M("C13-empty-model-k-plus-one", {"C13": "C13.R4"}, (_MS, "            for i in range(user_args.num_clusters)\n            ]", "            for i in range(user_args.num_clusters + 1)\n            ]"))
+M("C13-twin-copy-copy-labels", {"C13": None}, (_MS, "            point_labels=list(self._point_labels),", "            point_labels=self._point_labels[:],"))
